@@ -99,6 +99,21 @@ theorem recoverIfNeeded_noScript (s : FState α) (cmd : Cmd α) (b : Bool) :
         · cases ho
       · simp at ho; subst ho; rfl
 
+theorem nonMoveBody_noScript_of (s : FState α) (cmd : Cmd α) (dE pE : α)
+    (h : ∀ o ∈ (T.processNonMove s cmd dE).2, isScript o = false) :
+    ∀ o ∈ (T.nonMoveBody s cmd dE pE).2, isScript o = false := by
+  unfold T.nonMoveBody
+  cases s.lastRetraction with
+  | none => exact h
+  | some lr =>
+    simp only
+    split
+    · intro o ho
+      rcases mem_insertBeforeLast _ _ _ ho with rfl | ho
+      · rfl
+      · exact h o ho
+    · exact h
+
 theorem processNonMove_noScript (s : FState α) (cmd : Cmd α) (dE : α) :
     ∀ o ∈ (T.processNonMove s cmd dE).2, isScript o = false := by
   unfold T.processNonMove
@@ -129,6 +144,10 @@ def flush (pending : List (String × Pending α)) : List (Out α) :=
   pending.map (fun (g, p) => match p with
     | .args a => Out.merged g a
     | .cmd c => Out.orig c)
+
+theorem nonMoveBody_noScript (s : FState α) (cmd : Cmd α) (dE pE : α) :
+    ∀ o ∈ (T.nonMoveBody s cmd dE pE).2, isScript o = false :=
+  nonMoveBody_noScript_of s cmd dE pE (processNonMove_noScript s cmd dE)
 
 theorem flush_noScript (pending : List (String × Pending α)) : ∀ o ∈ flush pending, isScript o = false := by
   intro o ho
@@ -242,7 +261,7 @@ theorem scripts_exactly_on_transitions (cfg : Config) (s : FState α) (cmd : Cmd
         · intro o ho; simp at ho; subst ho; rfl
   · have hm' : T.isMoveOf fz xy = false := by simpa using hm
     simp only [hm', Bool.not_false, if_true, Bool.false_and, Bool.false_eq_true, if_false]
-    rw [scriptPart_none _ (processNonMove_noScript _ cmd _)]
+    rw [scriptPart_none _ (nonMoveBody_noScript _ cmd _ _)]
     cases s.excluding <;> rfl
 
 end ERP.C06
